@@ -11,8 +11,8 @@
       is_take_last    (any `take_last` path)               a_take_last
       alias           (FIRST `alias = "str"`)              hd of a_aliases
       binary_token    (FIRST `token = int` that fits u16)  hd of a_tokens
-      can_default: a path segment of the type is `Option`  a_option   (checked BEFORE the attribute)
-                   FIRST `default` meta: word / = "path"   a_default
+      can_default: FIRST `default` meta: word / = "path"   a_default   (looked at first)
+                   a path segment of the type is `Option`  a_option    (only without a default argument)
       can_deserialize_with                                 not here: it changes the value, not the
                                                            field semantics (the value type V is abstract;
                                                            the harness structs and the spec apply it)
@@ -64,12 +64,11 @@ Section Macro.
     if a_duplicated a then Duplicated else if a_take_last a then TakeLast else Once.
 
   Definition miss_of_attrs (a : field_attrs V) : miss_policy V :=
-    if a_option a then DefaultTo (a_type_default a)
-    else match a_default a with
-         | DefWord => DefaultTo (a_type_default a)
-         | DefPath => DefaultTo (a_path_default a)
-         | DefAbsent => Required
-         end.
+    match a_default a with
+    | DefPath => DefaultTo (a_path_default a)
+    | DefWord => DefaultTo (a_type_default a)
+    | DefAbsent => if a_option a then DefaultTo (a_type_default a) else Required
+    end.
 
   Definition spec_of_attrs (a : field_attrs V) : field_spec V :=
     mk_field (key_of_attrs a) (token_of_attrs a) (dup_of_attrs a) (miss_of_attrs a).
